@@ -64,10 +64,10 @@ type spec struct {
 	// self link <a id=s href="#s">: "" (present), "none" (absent: the skeleton then defines no id of its
 	// own), "no-id" (<a href="#s"> only: dangling unless another element has id s), "no-href" (<a id=s> only)
 	selfLink string
-	zoom    float32
-	base    string
-	tags    map[string]bool
-	picks   []string
+	zoom     float32
+	base     string
+	tags     map[string]bool
+	picks    []string
 }
 
 func (s *spec) tag(ts ...string) {
